@@ -652,6 +652,16 @@ def run(repo, run, tier):
                   "%s puts a \\t break hint into a documentation line (%s): a line longer than the line length is continued "
                   "as code and the remainder of the text becomes a statement of the generated file"
                   % (q, ast.unparse(hints[0]._parent)[:60] if hints else ""), um.loc(hints[0]) if hints else um.loc(fn))
+    # ... and a tab that the user wrote into the text is a break hint as well: the text is freed of tabs before it is split
+    wl_ = um.func("WrapperMixin.write_doxygen_lines") if um.has_func("WrapperMixin.write_doxygen_lines") else wd
+    splits = [c for c in ast.walk(wl_) if isinstance(c, ast.Call) and isinstance(c.func, ast.Attribute) and c.func.attr in ("split", "splitlines")]
+    if not splits:
+        raise AnalysisError("C16.R1: the place where documentation text is split into lines was not found")
+    for c in splits:
+        src = ast.unparse(c.func.value)
+        run.check(R1, "util.%s:tabs-of-text" % wl_.name, "expandtabs" in src or "replace('\\t'" in src,
+                  "the documentation text is split into lines as it is (`%s`): a tab in a line longer than the line length makes "
+                  "write_continue continue the comment as code (`!! ... &` and a line without the leader)" % ast.unparse(c), um.loc(c))
     for k in keys:
         def is_doc(x, k=k):
             return isinstance(x, ast.Subscript) and pyflow.is_name(x.value, "docs") and pyflow.const_str(x.slice) == k \
